@@ -507,9 +507,122 @@ def families(pid, tier):
             yield list(combo)
 
 
+def window_family(pid):
+    """C02: everything that can happen to a handler component inside ONE window in which
+    dispatching is disabled (attached and detached again, replaced, its entity deleted,
+    re-attached): each postponed callback is delivered once, in order, on enabling.
+    Enumerated in full on every run (not subject to the cap of the main enumeration)."""
+    if pid != 'C02':
+        return
+    win = [('create', ['H'], None), ('create', ['H', 'A'], None), ('add', 1, 'H#2'), ('add', 1, 'H#3'),
+           ('remove', 1, 'H'), ('delete', 1, True), ('delete', 1, False), ('process', 1),
+           ('create', ['H#4'], 1), ('clear',)]
+    for prefix in ([], [('create', ['H'], None)], [('create', ['A'], None)]):
+        for k in range(1, 4):
+            for combo in itertools.product(win, repeat=k):
+                yield prefix + [('disable',)] + list(combo) + [('enable',), ('ping',)]
+
+
 KNOWN_SIGNATURES = {
     'auto-id': 'D02',
 }
+
+
+def equality_scenarios():
+    """Components and processors whose classes define == by value (dataclass-like): queries,
+    removals and the execution order go by identity and type, never by equality."""
+    import desper
+    out = []
+    ran = []
+
+    class System(desper.Processor):
+        def __init__(self, tag):
+            self.tag = tag
+
+        def __eq__(self, other):
+            return isinstance(other, System) and other.tag == self.tag
+
+        def __hash__(self):
+            return hash(self.tag)
+
+        def process(self, dt):
+            ran.append(self)
+
+    class Physics(System):
+        pass
+
+    class Render(System):
+        priority = 5
+
+    class Debug(Render):
+        priority = 7
+
+    def ids(seq):
+        return [id(x) for x in seq]
+    for removed_name in ('Physics', 'Render', 'Debug'):
+        w = desper.World()
+        ps = {'Physics': Physics('main'), 'Render': Render('main'), 'Debug': Debug('main')}
+        for p_ in ps.values():
+            w.add_processor(p_)
+        T = {'Physics': Physics, 'Render': Render, 'Debug': Debug}[removed_name]
+        r = w.remove_processor(T)
+        left = [p_ for n_, p_ in ps.items() if n_ != removed_name]
+        if r is not ps[removed_name]:
+            out.append(('C06', 'remove_processor(%s) returned %r' % (removed_name, r), 'eq-rmproc-result'))
+        if ids(w.processors) != ids(left):
+            out.append(('C06', 'three processors that compare equal; after remove_processor(%s) the world '
+                               'runs %r, expected %r' % (removed_name, [type(x).__name__ for x in w.processors],
+                                                         [type(x).__name__ for x in left]), 'eq-rmproc'))
+        del ran[:]
+        w.process(1)
+        if ids(ran) != ids(left):
+            out.append(('C07', 'after remove_processor(%s) process() ran %r' % (
+                removed_name, [type(x).__name__ for x in ran]), 'eq-process'))
+        for n_, p_ in ps.items():
+            if n_ != removed_name and w.get_processor(type(p_)) is not p_:
+                out.append(('C06', 'get_processor(%s) does not return the registered instance' % n_, 'eq-getproc'))
+    # re-adding: a new instance of a type replaces the old one, the equal ones of other types stay
+    w = desper.World()
+    a, b, b2 = Physics('x'), Render('x'), Render('x')
+    for p_ in (a, b, b2):
+        w.add_processor(p_)
+    if ids(w.processors) != ids([a, b2]):
+        out.append(('C07', 'replacing a processor by an equal instance of its type: world runs %r'
+                    % ([type(x).__name__ for x in w.processors],), 'eq-replace'))
+
+    class Stat:
+        def __init__(self, v):
+            self.v = v
+
+        def __eq__(self, other):
+            return isinstance(other, Stat) and other.v == self.v
+
+        def __hash__(self):
+            return hash(self.v)
+
+    class Health(Stat):
+        pass
+
+    class Mana(Stat):
+        pass
+    w = desper.World()
+    h1, m1, h2 = Health(3), Mana(3), Health(3)
+    e1 = w.create_entity(h1, m1)
+    e2 = w.create_entity(h2)
+    got = w.remove_component(e1, Mana)
+    if got is not m1 or ids(w.get_components(e1)) != ids([h1]) or ids(w.get_components(e2)) != ids([h2]):
+        out.append(('C06', 'components that compare equal: remove_component(e1, Mana) returned %r and left '
+                           '%r / %r' % (got, w.get_components(e1), w.get_components(e2)), 'eq-rmcomp'))
+    pairs = sorted((e, id(c)) for e, c in w.get(Stat))
+    if pairs != sorted([(e1, id(h1)), (e2, id(h2))]):
+        out.append(('C06', 'get(Stat) over components that compare equal reports %r' % (pairs,), 'eq-get'))
+    if w.get_component(e2, Stat) is not h2 or w.get_component(e1, Health) is not h1:
+        out.append(('C01', 'get_component returns an equal component of another entity', 'eq-getcomp'))
+    w.add_component(e1, Health(3))
+    if w.get_component(e2, Health) is not h2:
+        out.append(('C01', 'replacing a component of one entity by an equal one touched another entity',
+                    'eq-replace-comp'))
+    return out
 
 
 def callback_scenarios():
@@ -658,7 +771,17 @@ def main():
                               'observed': v[1], 'violates': v[0], 'found_by': 'native scenario',
                               'signature': sig}, default=str))
             return
-    for hist in itertools.chain(targeted, families(pid, req.get('tier', 'quick'))):
+    if pid in ('C01', 'C06', 'C07'):
+        for v in equality_scenarios():
+            sig = '%s:%s' % (v[0], v[2])
+            if sig in skip or (want and sig != want):
+                continue
+            print(json.dumps({'status': 'reproduced', 'history': {'scenario': 'equality_scenarios'},
+                              'observed': v[1], 'violates': v[0], 'found_by': 'native scenario',
+                              'signature': sig}, default=str))
+            return
+    uncapped = len(targeted) + sum(1 for _ in window_family(pid))
+    for hist in itertools.chain(targeted, window_family(pid), families(pid, req.get('tier', 'quick'))):
         tried += 1
         r = run_history(hist)
         v = r['verdict']
@@ -672,7 +795,7 @@ def main():
                               'violates': v[0], 'found_by': 'native bounded search',
                               'signature': sig}, default=str))
             return
-        if tried > (60000 if req.get('tier') == 'thorough' else 12000):
+        if tried - uncapped > (60000 if req.get('tier') == 'thorough' else 12000):
             cut = tried
             break
     print(json.dumps({'status': 'not-found', 'tried': tried, 'truncated_at': cut}))
